@@ -589,10 +589,49 @@ def run(ctx):
         else:
             txt = " ".join(fmt(e["expr"]) for _, _, e in bf.roots())
             ctx.check("short_name()" in txt and re.search(r"\(%s << \"-\"\) << short_name\(\)" % buf, txt) is not None, "R15.4", bf, "short-spelling-inserted", "the short spelling is not inserted into the line", bf)
-            ctx.check(txt.count("format_name()") >= 2, "R15.4", bf, "long-spelling-inserted", "format_name() is not inserted on both branches", bf)
+            ins_long = lambda e: e.get("expr") is not None and re.search(r"%s\b.*<< format_name\(\)" % re.escape(buf), fmt(e["expr"])) is not None
+            okl, pthl = cfg.must_happen_before_exit(bf, ins_long)
+            ctx.check(okl, "R15.4", bf, "long-spelling-inserted", "format_name() is not inserted into the line on every path (B%s reaches the exit without it)" % "->B".join(map(str, pthl or [])), bf)
             ctx.check("format_value(%s)" % buf in txt, "R15.4", bf, "value-placeholder-inserted", "format_value is not applied to the line buffer", bf)
             # description parts flow into the wrapped text
-            parts = [fmt(n["args"][0]) for _, _, e in bf.roots() for n in elem_calls(e) if short(n.get("name") or "") == "push_back" and n.get("args")]
+            # the container handed to join(): what is appended to it, assigned to its elements or listed in its initialiser
+            joined = None
+            for _, _, e in bf.roots():
+                for n in elem_calls(e):
+                    if (n.get("name") or "").endswith("lang::join") and n.get("args"):
+                        a0 = ir.unwrap(n["args"][0])
+                        while isinstance(a0, dict) and a0.get("k") in ("cast", "construct") and (a0.get("e") is not None or len(a0.get("args", [])) == 1):
+                            a0 = ir.unwrap(a0.get("e") if a0.get("e") is not None else a0["args"][0])
+                        if isinstance(a0, dict) and a0.get("k") == "call" and short(a0.get("name") or "") in ("begin", "cbegin") and (a0.get("this") is not None or a0.get("args")):
+                            a0 = ir.unwrap(a0["this"] if a0.get("this") is not None else a0["args"][0])
+                        if isinstance(a0, dict) and a0.get("k") == "ref":
+                            joined = fmt(a0)
+            parts = [fmt(n["args"][0]) for _, _, e in bf.roots() for n in elem_calls(e) if short(n.get("name") or "") in ("push_back", "emplace_back") and n.get("args") and (joined is None or fmt(n.get("this")) == joined)]
+            if joined is not None:
+                for _, _, e in bf.roots():
+                    for n in walk(e["expr"]):
+                        if isinstance(n, dict) and ((n.get("k") == "bin" and n.get("op") == "=") or (n.get("k") == "call" and n.get("op") == "=")):
+                            lhs = ir.unwrap(n["l"] if n.get("k") == "bin" else (n.get("this") if n.get("this") is not None else (n.get("args") or [None])[0]))
+                            rhs = n["r"] if n.get("k") == "bin" else (n["args"][-1] if n.get("args") else None)
+                            if isinstance(lhs, dict) and (lhs.get("k") == "subscript" or (lhs.get("k") == "call" and lhs.get("op") == "[]") or (lhs.get("k") == "call" and short(lhs.get("name") or "") == "at")):
+                                basee = lhs.get("base") if lhs.get("k") == "subscript" else (lhs.get("this") if lhs.get("this") is not None else (lhs.get("args") or [None])[0])
+                                if basee is not None and fmt(ir.unwrap(basee)) == joined and rhs is not None:
+                                    r0 = ir.unwrap(rhs)
+                                    while isinstance(r0, dict) and r0.get("k") in ("cast", "construct") and (r0.get("e") is not None or len(r0.get("args", [])) == 1):
+                                        r0 = ir.unwrap(r0.get("e") if r0.get("e") is not None else r0["args"][0])
+                                    parts.append(fmt(r0))
+                    x0 = e["expr"]
+                    if x0.get("k") == "decl":
+                        for v0 in x0.get("vars", []):
+                            if v0["name"] == joined and v0.get("init") is not None:
+                                for y0 in walk(v0["init"]):
+                                    if isinstance(y0, dict) and y0.get("k") == "init_list":
+                                        for el0 in y0.get("elems", []):
+                                            r0 = ir.unwrap(el0)
+                                            while isinstance(r0, dict) and r0.get("k") in ("cast", "construct") and (r0.get("e") is not None or len(r0.get("args", [])) == 1):
+                                                r0 = ir.unwrap(r0.get("e") if r0.get("e") is not None else r0["args"][0])
+                                            if isinstance(r0, dict) and r0.get("k") != "init_list":
+                                                parts.append(fmt(r0))
             ctx.check(any(p == "description_" for p in parts), "R15.4", bf, "description-present", "description_ does not flow into the text (%s)" % parts, bf)
             ctx.check(any("env_" in p for p in parts), "R15.4", bf, "env-hint-present", "the environment hint does not flow into the text", bf)
             ctx.check(any(p == "format_default()" for p in parts), "R15.4", bf, "default-present", "format_default() does not flow into the text", bf)
